@@ -342,6 +342,31 @@ def _case(op, family, desc, ins, outs, kwargs, opts=None, kinds=None, tags=()):
     }
 
 
+SAME_NAME_BRACKETS = False  # opt-in per check (checks that re-render descriptions from the structure keep it off)
+
+
+def same_name_brackets(case, baxes, rng, prob=0.3):
+    """Two bracketed (indexed) target axes of equal length may carry the SAME name ('b [h h] c'): they stay two
+    independent indexed axes. The structured description keeps distinct names (so RefSem indexes them
+    independently); only the text and the size keywords given to einx use one name."""
+    import re
+
+    same = [(a, b) for i, a in enumerate(baxes) for b in baxes[i + 1 :] if a.size == b.size]
+    if not SAME_NAME_BRACKETS or not same or rng.random() >= prob:
+        return case
+    a, b = rng.choice(same)
+    case = dict(case)
+    case["desc"] = re.sub(rf"\b{b.name}\b", a.name, case["desc"])
+    kw = dict(case["kwargs"])
+    if b.name in kw:
+        kw.setdefault(a.name, kw.pop(b.name))
+        kw.pop(b.name, None)
+    case["kwargs"] = kw
+    case["tags"] = sorted(set(case["tags"]) | {"same-name-bracket-axes"})
+    case["printed_alias"] = {b.name: a.name}
+    return case
+
+
 def tags_of(exprs):
     t = set()
 
@@ -673,6 +698,16 @@ def gen_elementwise(g, op=None):
     if rng.random() < 0.35:
         sets = [{l.name for l, _ in leaves(e) if isinstance(l, Ax)} for e in ins]
         parents = [i for i, s in enumerate(sets) if all(t <= s for j, t in enumerate(sets) if j != i)]
+        # a number other than 1 is a fresh axis of its own: it makes its expression the unique superset even
+        # when another input has the same named axes ('a 3, a' means 'a c, a' with c=3, output 'a c')
+        if "diagonal" not in tags and parents and (len(parents) > 1 or rng.random() < 0.3):
+            i = rng.choice(parents)
+            lst = list(ins[i])
+            lst.insert(rng.randrange(len(lst) + 1), Num(rng.choice([2, 3])))
+            ins = list(ins)
+            ins[i] = tuple(lst)
+            parents = [i]
+            tags.add("number-in-implicit-output")
         if len(ins) == 1 or len({show_expr(ins[i]) for i in parents}) == 1 and len(parents) == 1:
             i = parents[0] if len(ins) > 1 else 0
             if "diagonal" not in tags:
@@ -797,7 +832,7 @@ def gen_get_at(g):
     e_out = g.layout(out_leaves, group_prob=0.15, ones=False)
     ins = [e_t] + coords
     kw = make_kwargs(rng, ins, [e_out])
-    return _case("get_at", "get_at", show_op(ins, [e_out]), ins, [e_out], kw, kinds=kinds, tags=tags_of(ins + [e_out]) | {f"coords-{ncoord}"})
+    return same_name_brackets(_case("get_at", "get_at", show_op(ins, [e_out]), ins, [e_out], kw, kinds=kinds, tags=tags_of(ins + [e_out]) | {f"coords-{ncoord}"}), baxes, rng)
 
 
 def gen_preserve(g, op=None):
@@ -957,7 +992,7 @@ def gen_update(g, op=None):
         tags.add("cse-groups")
         if not any(isinstance(x, Grp) and x in extra for e in coords for x in e) or not any(isinstance(x, Grp) and x in extra for x in e_u):
             raise ValueError("cse group must constrain both coordinates and updates")
-    return _case(op, "update", desc, ins, [e_out], kw, kinds=kinds, tags=tags | tags_of(ins + [e_out]) | {f"coords-{ncoord}"})
+    return same_name_brackets(_case(op, "update", desc, ins, [e_out], kw, kinds=kinds, tags=tags | tags_of(ins + [e_out]) | {f"coords-{ncoord}"}), baxes, rng)
 
 
 def ellipsify(g, case):
